@@ -151,6 +151,7 @@ struct HPca : Harness {
     Hasher h;
     if (rank == 0 || !(gap > 1e4L || rank == (size_t)std::min(n, pp))) { o.counters["skipped.rank_zero_or_ambiguous"]++; o.hash = 7; return o; }
     int npc = 1 + (int)(p.getd("npc_frac") * rank); if (npc > (int)rank) npc = (int)rank;
+    if (p.geti("large", 0) && npc > 3) npc = 3;  // large operands are there for size-dependent paths of the kernels, not for long models
     if (p.has("npc")) npc = std::min((int)p.geti("npc"), (int)rank);
     o.cfg += " npc=" + std::to_string(npc) + "/" + std::to_string(rank);
 
